@@ -7,9 +7,9 @@ import typing
 import z3
 
 from . import types as T
-from .sorts import B, CLS, I, LOWER, NONE, S, STR_OF, SeqV, UPPER, V, mkb, mki, mkr, mks
-from .state import Val
-from .types import DictT, ListT, NoneType, Opt, SeqRaw, SetT, TupleT
+from .sorts import B, CLS, I, LOWER, NONE, S, STR_OF, UPPER, V, mkb, mki, mkr, mks
+from .state import SeqView, Val, arr_lit, arr_slice, fresh_name
+from .types import DictT, ListT, NoneType, Opt, SetT, TupleT
 from .world import Unsupported
 
 TRUE = z3.BoolVal(True)
@@ -33,10 +33,10 @@ def install(w):
         ty = T.strip_opt(x.ty)
         if ty is str:
             return Val(mki(z3.Length(V.sval(x.t))), int)
-        if isinstance(ty, (ListT, TupleT, SeqRaw)) or ty in (list, tuple):
-            return Val(mki(z3.Length(ex.seq_of(st, x, node))), int)
+        if isinstance(ty, (ListT, TupleT)) or ty in (list, tuple):
+            return Val(mki(ex.seq_of(st, x, node).n), int)
         if isinstance(ty, (DictT, SetT)):
-            return Val(mki(z3.Length(st.arr("$dkeys")[ex.as_ref(st, x, node)])), int)
+            return Val(mki(ex.keys_of(st, x, node).n), int)
         if isinstance(ty, type):
             for k in ty.__mro__:
                 h = H.get(f"{k.__module__}.{k.__qualname__}.__len__")
@@ -94,14 +94,14 @@ def install(w):
     @reg(builtins.tuple)
     def _tuple(ex, st, args, kw, node):
         if not args:
-            return ex.new_seq(st, tuple, z3.Empty(SeqV), items=[])
+            return ex.new_seq_lit(st, tuple, [], items=[])
         (x,) = args
         return _to_seq(ex, st, x, node, tuple)
 
     @reg(builtins.list)
     def _list(ex, st, args, kw, node):
         if not args:
-            return ex.new_seq(st, list, z3.Empty(SeqV))
+            return ex.new_seq_lit(st, list, [])
         (x,) = args
         return _to_seq(ex, st, x, node, list)
 
@@ -112,33 +112,21 @@ def install(w):
             L = eval_comprehension(ex, x.py[1], st, "gen")
             if kind is list:
                 return L
-            return ex.new_seq(st, tuple, ex.seq_of(st, L, node), elem=getattr(L.ty, "elem", None))
+            v = ex.seq_of(st, L, node)
+            return ex.new_seq(st, tuple, v.n, v.arr, elem=v.elem)
         if isinstance(x.py, tuple) and x.py and x.py[0] == "dict.values":
             d = x.py[1]
-            vals = st.arr("$dvals")[V.rid(d.t)] if False else ex.call_handler("$dict_values_seq", st, [d], {}, node)
-            return ex.new_seq(st, kind, vals, elem=getattr(d.ty, "v", None))
+            keys = ex.keys_of(st, d, node)
+            dm = st.arr("$dmap")[V.rid(d.t)]
+            i = z3.Int(fresh_name("dv!i"))
+            return ex.new_seq(st, kind, keys.n, z3.Lambda([i], dm[keys.at(i)]), elem=getattr(d.ty, "v", None))
         ty = T.strip_opt(x.ty)
         if isinstance(ty, (ListT, TupleT)):
-            out = ex.new_seq(st, kind, ex.seq_of(st, x, node), elem=getattr(ty, "elem", None) if not (isinstance(ty, TupleT) and ty.items is not None) else T.join_types(ty.items))
+            v = ex.seq_of(st, x, node)
+            out = ex.new_seq(st, kind, v.n, v.arr, elem=v.elem)
             out.parts = x.parts
             return out
         raise Unsupported(f"{kind.__name__}() of {T.tname(x.ty)}", node)
-
-    @reg("$dict_values_seq")
-    def _dict_values_seq(ex, st, args, kw, node):
-        """values of a dict in insertion order as a Seq: map of dmap over dkeys (stated element-wise)"""
-        (d,) = args
-        oid = V.rid(d.t)
-        keys = st.arr("$dkeys")[oid]
-        dm = st.arr("$dmap")[oid]
-        out = ex.fresh("dvals", SeqV)
-        st.assume(z3.Length(out) == z3.Length(keys))
-        j = z3.Int(f"dv!{out.get_id()}")
-        st.assume(z3.ForAll([j], z3.Implies(z3.And(j >= 0, j < z3.Length(keys)), out[j] == dm[keys[j]])))
-        # small concrete lengths are used a lot: give the solver ground instances for the first few indices
-        for k in range(4):
-            st.assume(z3.Implies(z3.Length(keys) > k, out[k] == dm[keys[k]]))
-        return out
 
     @reg(builtins.print)
     def _print(ex, st, args, kw, node):
@@ -163,10 +151,10 @@ def install(w):
 
             x = eval_comprehension(ex, x.py[1], st, "gen")
         sq = ex.seq_of(st, x, node)
-        j = z3.Int(f"aa!{sq.get_id()}")
-        elem = Val(sq[j], getattr(x.ty, "elem", None))
+        j = z3.Int(fresh_name("aa!j"))
+        elem = Val(sq.at(j), sq.elem)
         t = ex.truthy(st, elem)
-        rng = z3.And(j >= 0, j < z3.Length(sq))
+        rng = z3.And(j >= 0, j < sq.n)
         q = z3.Exists([j], z3.And(rng, t)) if is_any else z3.ForAll([j], z3.Implies(rng, t))
         return Val(mkb(q), bool)
 
@@ -221,17 +209,18 @@ def install(w):
             raise Unsupported("str.split() without separator", node)
         sep = ex.as_str(st, args[1], node)
         x = V.sval(s_.t)
-        out = ex.new_seq(st, list, ex.fresh("split", SeqV), elem=str)
-        sq = st.arr("$seq")[V.rid(out.t)]
-        # A-PY facts used: at least one piece; pieces are strings; first piece is the text before the first separator;
-        # the pieces joined by sep give x back (stated for 1 and 2 pieces); last piece is the text after the last sep
-        st.assume(z3.Length(sq) >= 1)
-        j = z3.Int(f"sp!{sq.get_id()}")
-        st.assume(z3.ForAll([j], z3.Implies(z3.And(j >= 0, j < z3.Length(sq)), z3.And(V.is_s(sq[j]), z3.Not(z3.Contains(V.sval(sq[j]), sep))))))
-        first = V.sval(sq[0])
+        n = ex.fresh("split_n", I)
+        arr = ex.fresh("split_el", z3.ArraySort(I, V))
+        out = ex.new_seq(st, list, n, arr, elem=str)
+        # A-PY facts used: at least one piece; pieces are strings without the separator; first piece is the text
+        # before the first separator; exactly one piece iff the separator does not occur
+        st.assume(n >= 1)
+        j = z3.Int(fresh_name("sp!j"))
+        st.assume(z3.ForAll([j], z3.Implies(z3.And(j >= 0, j < n), z3.And(V.is_s(arr[j]), z3.Not(z3.Contains(V.sval(arr[j]), sep))))))
         idx = z3.IndexOf(x, sep, 0)
-        st.assume(z3.And(V.is_s(sq[0]), first == z3.If(idx < 0, x, z3.SubString(x, 0, idx))))
-        st.assume((z3.Length(sq) == 1) == z3.Not(z3.Contains(x, sep)))
+        st.assume(z3.And(V.is_s(arr[0]), V.sval(arr[0]) == z3.If(idx < 0, x, z3.SubString(x, 0, idx))))
+        st.assume((n == 1) == z3.Not(z3.Contains(x, sep)))
+        st.assume(z3.Implies(n == 2, x == z3.Concat(V.sval(arr[0]), sep, V.sval(arr[1]))))
         return out
 
     @reg("str.join")
@@ -250,11 +239,11 @@ def install(w):
             t = z3.Concat(terms) if len(terms) > 1 else (terms[0] if terms else z3.StringVal(""))
             return Val(mks(t), str)
         sq = ex.seq_of(st, xs, node)
-        out = JOIN(V.sval(sep.t), sq)
+        out = JOIN(V.sval(sep.t), sq.n, sq.arr)
         # ground facts for short sequences
-        st.assume(z3.Implies(z3.Length(sq) == 0, out == z3.StringVal("")))
-        st.assume(z3.Implies(z3.Length(sq) == 1, out == V.sval(sq[0])))
-        st.assume(z3.Implies(z3.Length(sq) == 2, out == z3.Concat(V.sval(sq[0]), V.sval(sep.t), V.sval(sq[1]))))
+        st.assume(z3.Implies(sq.n == 0, out == z3.StringVal("")))
+        st.assume(z3.Implies(sq.n == 1, out == V.sval(sq.at(0))))
+        st.assume(z3.Implies(sq.n == 2, out == z3.Concat(V.sval(sq.at(0)), V.sval(sep.t), V.sval(sq.at(1)))))
         return Val(mks(out), str)
 
     @reg("str.format")
@@ -270,8 +259,9 @@ def install(w):
     def _append(ex, st, args, kw, node):
         xs, v = args
         oid = ex.as_ref(st, xs, node)
-        sq = st.arr("$seq")
-        st.heap["$seq"] = z3.Store(sq, oid, z3.Concat(sq[oid], z3.Unit(v.t)))
+        ln, el = st.arr("$len"), st.arr("$el")
+        st.heap["$el"] = z3.Store(el, oid, z3.Store(el[oid], ln[oid], v.t))
+        st.heap["$len"] = z3.Store(ln, oid, ln[oid] + 1)
         return Val(NONE, NoneType)
 
     @reg("list.insert")
@@ -281,8 +271,10 @@ def install(w):
         if not (z3.is_int_value(ci) and ci.as_long() == 0):
             raise Unsupported("list.insert at non-zero index", node)
         oid = ex.as_ref(st, xs, node)
-        sq = st.arr("$seq")
-        st.heap["$seq"] = z3.Store(sq, oid, z3.Concat(z3.Unit(v.t), sq[oid]))
+        ln, el = st.arr("$len"), st.arr("$el")
+        i = z3.Int(fresh_name("ins!i"))
+        st.heap["$el"] = z3.Store(el, oid, z3.Lambda([i], z3.If(i == 0, v.t, el[oid][i - 1])))
+        st.heap["$len"] = z3.Store(ln, oid, ln[oid] + 1)
         return Val(NONE, NoneType)
 
     @reg("dict.get")
@@ -309,10 +301,9 @@ def install(w):
         ex.raise_if(st, z3.Not(present), KeyError, node)
         v = Val(st.arr("$dmap")[oid][k.t], getattr(d.ty, "v", None))
         st.heap["$dhas"] = z3.Store(has, oid, z3.Store(has[oid], k.t, FALSE))
-        keys = st.arr("$dkeys")
-        nk = ex.fresh("keys_after_pop", SeqV)
-        st.assume(z3.Length(nk) == z3.Length(keys[oid]) - 1)
-        st.heap["$dkeys"] = z3.Store(keys, oid, nk)
+        kl, ke = st.arr("$klen"), st.arr("$kel")
+        st.heap["$klen"] = z3.Store(kl, oid, kl[oid] - 1)
+        st.heap["$kel"] = z3.Store(ke, oid, ex.fresh("keys_after_pop", z3.ArraySort(I, V)))  # order of the rest: unspecified here
         return v
 
     @reg("dict.items")
@@ -326,10 +317,11 @@ def install(w):
     @reg("dict.keys")
     def _dkeys(ex, st, args, kw, node):
         d = args[0]
-        return ex.new_seq(st, list, st.arr("$dkeys")[ex.as_ref(st, d, node)], elem=getattr(d.ty, "k", None))
+        k = ex.keys_of(st, d, node)
+        return ex.new_seq(st, list, k.n, k.arr, elem=getattr(d.ty, "k", None))
 
 
-JOIN = z3.Function("py_join", S, SeqV, S)
+JOIN = z3.Function("py_join", S, I, z3.ArraySort(I, V), S)
 
 _upper_facts_done = set()
 
